@@ -2,6 +2,8 @@
    Model: Model/CoreRun.v (source rules -> transform -> per-step grounding with the part selection -> accumulated ground
    program of steps 0..h; __initial/__final and atoms outside [0,h] are decided atoms).  Specification: temporal
    equilibrium models over traces of length h+1 (Spec/TEL.v).  Property theorems only. *)
+From Coq Require Import List NArith.
+Require Import Oracle OracleCorrect.
 Require Import HT TEL TELext DecP CoreRun GenPrelude FromSource Leaf_imain.
 
 (* The stable models (equilibrium models) of the program accumulated by the incremental run of steps 0..h, together
@@ -31,6 +33,17 @@ Proof.
   intros p s. rewrite part_selected_gen_spec. unfold part_sel, part_selected. destruct p; cbn [root_of].
   all: f_equal; destruct s; reflexivity.
 Qed.
+(* The oracle of the end-to-end correspondence (extracted Oracle.tsm_enum, used by the checks of C01-C05, C09, C13) is
+   correct and complete: it lists exactly the bit sets, within the n*(h+1) bits of the finite universe, whose trace is a
+   temporal stable model of the program (satisfied classically, and by no strictly smaller here-world), each once.
+   Rules may have arbitrary THT_f heads and bodies with temporal and dynamic formulas (Oracle.srule). *)
+Theorem C01_oracle_correct : forall (n h : nat) (P : list Oracle.srule) (t : N),
+  In t (Oracle.tsm_enum n h P) <-> OracleCorrect.in_range (n * S h) t /\ OracleCorrect.tsm_fin h P (Oracle.tr_of n t).
+Proof. exact tsm_enum_correct. Qed.
+Theorem C01_oracle_no_duplicates : forall (n h : nat) (P : list Oracle.srule), NoDup (Oracle.tsm_enum n h P).
+Proof. exact tsm_enum_nodup. Qed.
 Print Assumptions C01_core_exact.
 Print Assumptions C01_instance_meaning.
 Print Assumptions C01_part_selection_tied.
+Print Assumptions C01_oracle_correct.
+Print Assumptions C01_oracle_no_duplicates.
